@@ -80,6 +80,9 @@ def atoms(o):
     if k in ("cs", "CS"):
         setop = o[3] if len(o) > 3 else ("scn" if k == "cs" else "SCN")
         return [b"/" + o[1].encode(), K] + [n(v) for v in o[2]] + [setop.encode()]
+    if k in ("sc", "SC"):
+        # standalone colour-setting in the current colour space: o = (k, values, operator spelling)
+        return [n(v) for v in o[1]] + [(o[2] if len(o) > 2 else k).encode()]
     if k == "Tf":
         return [b"/" + o[1].encode(), n(o[2]), b"Tf"]
     if k in ("Tj", "'"):
@@ -188,6 +191,12 @@ class Model:
                 gs.ncolor = _col(Fr(v) for v in o[2])
             elif k == "CS":
                 gs.scolor = _col(Fr(v) for v in o[2])
+            elif k == "sc":
+                gs.ncolor = _col(Fr(v) for v in o[1])
+                self.flags.add("standalone-sc")
+            elif k == "SC":
+                gs.scolor = _col(Fr(v) for v in o[1])
+                self.flags.add("standalone-sc")
             elif k == "m":
                 path.append([(Fr(o[1]), Fr(o[2])), [], False])
             elif k in ("l", "c", "v", "y"):
